@@ -352,6 +352,11 @@ def run(ctx: Ctx):
                 "declared attribute without definition accepts the assignment and is never encoded",
                 floor=100, constructs=lambda c: c.split("#")[0].split(".")[-1] in COPIED)
 
+    # ---------------- R10 the identifiers of an answer are not re-drawn on the way out -----------
+    ctx.include(c07.run, {"C07-R5b"}, "C20-R10",
+                "the transmit path (send_message ... the writer) stores header fields of requests "
+                "only: an answer leaves with the identifiers to_answer() copied, 0 included", floor=1)
+
     # ---------------- R9 no implicit writer of the header flags ------------------------------------
     # to_answer() clears R, E and T; the helpers then assign Result-Code, Origin-Host, ... on the
     # answer.  Attribute assignment on a message must not reach the header: code the assignment
